@@ -10,7 +10,7 @@ from .boot import VERIF_DIR, HarnessError
 from .decider import Decider, derive_seed
 
 PLAN = {   # (batches, runs per batch)
-    'quick': {'C02': (16, 70), 'C17': (16, 45)},
+    'quick': {'C02': (15, 54), 'C17': (15, 48)},
     'thorough': {'C02': (96, 200), 'C17': (96, 200)},
 }
 N_GOLDEN_JOBS = 16
@@ -435,6 +435,7 @@ def run_check(prop, tier, seed, workers, batches=None, runs=None, do_minimise=Tr
     scratch = orch.scratch_dir()
     try:
         ctx, ctx_file, dis, info = prepare(prop, tier, seed, workers, scratch)
+        t_prep = time.time() - t0
         lines, classes = [], {}
         n_rep = 0
         if prop == 'C02':
@@ -456,6 +457,9 @@ def run_check(prop, tier, seed, workers, batches=None, runs=None, do_minimise=Tr
         reports = orch.run_jobs(jobs + [dup], workers, 2 * 3600 if tier == 'quick' else 8 * 3600, scratch)
         dup_rep = reports.pop()
         agg = aggregate(reports)
+        agg['phase_s'] = {'prepare': round(t_prep, 1), 'through_batches': round(time.time() - t0, 1)}
+        agg['batch_wall_s'] = [(r.get('batch_wall_s'), r.get('job_wall_s')) for r in reports] + [('dup', dup_rep.get('batch_wall_s'), dup_rep.get('job_wall_s'))]
+        agg['slowest_runs'] = sorted((x for r in reports for x in r.get('slowest_runs', [])), reverse=True)[:6]
         a0 = dict((i, d) for i, d in reports[0]['digests'])
         bad = [i for i, d in dup_rep['digests'] if a0.get(i) != d]
         if bad and not reports[0]['violations']:
@@ -560,7 +564,7 @@ def write_ev(prop, tier, seed, agg, wall, nviol, jobs):
         'preemption_sites': {'distinct': len(agg['sites']), 'top': sorted(agg['sites'].items(), key=lambda x: -x[1])[:15]},
         'known_findings_hit': agg['known'],
         'hash_seeds': sorted(set(h for h in agg['hashseeds'] if h is not None)),
-        'golden': agg.get('info'),
+        'golden': agg.get('info'), 'batch_wall_s': agg.get('batch_wall_s'), 'phase_s': agg.get('phase_s'), 'slowest_runs': agg.get('slowest_runs'),
         'determinism_selftest': agg.get('determinism'),
         'seeds_per_hour': int(agg['runs'] / max(wall, 1e-6) * 3600),
         'components': {'real': ['recognizers_text (Recognizer, ModelFactory, Culture)', 'recognizers_number', 'recognizers_number_with_unit',
